@@ -24,6 +24,11 @@ Subset
                `Vec::new()`, tuples, `if` expressions, `S { a, b: e }` (→ tuple in field order), `*c.borrow()`, `*r`,
                `&e`, `&mut e` (references are transparent), calls of functions declared in the spec (abstract
                parameters such as `Op::operation`, or other translated functions).
+(gensel, section "gensel extensions" below) `return` inside `for` loops over ranges (recursive helpers returning
+`Option Ret × State`), `match xs.binary_search(&k) { Ok(i) | Err(i) => e }` (abstract function `slice.binary_search`),
+`bool as uN`, abstract monadic functions / mutating methods of abstract types, calls with `&mut` arguments of another
+translated function (`mut_calls`), closure arguments filling abstract function parameters of a translated callee
+(`closure_calls`), spec option `canonical_state`.
 Output style: the monad `RbV.Rs.Res` (`ok | panic | fuel`, RbV/Basic/RsSem.lean), `do` blocks of `let x ← …` / `let x := …`
 with Rust's mutation expressed by shadowing, `for` loops as `List.foldlM` of a named body function over `List.range'` /
 the slice / `zipIdx`, `while` loops as named recursive helpers on fuel.  Loop helpers are named `<fn>_for<k>`,
